@@ -246,6 +246,15 @@ func c01WPrograms(tier string) []*wn {
 	add(wProg(wset("v", wb("+", wb("+", nine(), a), b)), wset("w", wb("+", wv("v"), warr(c, c))), wset("u", wb("+", wv("v"), warr(a))), wprint(wv("w")), wv("u")))
 	add(wProg(wset("m", W("map", "", wi(2), a, wi(1), b, ws("k"), c)), wprint(wv("m"), widx(wv("m"), wi(1)), widx(wv("m"), ws("z")), W("len", "", wv("m"))), W("setidx", "m", wi(5), a), wv("m")))
 	add(wProg(wset("s", ws("hello")), wprint(widx(wv("s"), wb("%", a, wi(7))), W("slice", "", wv("s"), wi(1), wi(3)), W("sliceopen", "", wv("s"), wi(-2)), W("len", "", wv("s")), wb("+", wv("s"), ws("!")))))
+	// a local or a parameter named like the function shadows the function inside its body
+	add(wProg(wfn("sm", []string{"v"}, wdo(wdef("sm", wi(0)), W("forin", "e", wv("v"), wdo(wset("sm", wb("+", wv("sm"), wv("e"))))), wv("sm"))), wprint(wcall(wv("sm"), warr(a, b, wi(3))))))
+	add(wProg(wfn("gg", []string{"gg"}, wdo(wv("gg"))), wprint(wcall(wv("gg"), ws("s")), wcall(wv("gg"), a), wcall(wv("gg"), warr(b)))))
+	// the value of a loop is the value of the last iteration that ran to its end
+	add(wProg(wset("x", W("fori", "i", wi(5), wdo(wif(wb(">", i, wb("&", a, wi(3))), wdo(W("continue", ""))), i))), wprint(x)))
+	add(wProg(wset("x", W("fori", "i", wi(5), wdo(wif(wb("==", i, wb("+", wb("&", a, wi(3)), wi(1))), wdo(W("break", ""))), i))), wprint(x)))
+	add(wProg(wfn("lv", []string{"n"}, wdo(W("fori", "j", wi(3), wdo(wif(wb("==", wv("j"), wi(2)), wdo(wset("n", wi(100)), W("continue", ""))), n)))), wprint(wcall(wv("lv"), a))))
+	add(wProg(wset("x", W("forin", "e", warr(a, b, c), wdo(wif(wb("==", wv("e"), b), wdo(W("continue", ""))), wv("e")))), wprint(x)))
+	add(wProg(wset("x", W("times", "", wi(3), wdo(a))), wprint(x)))
 	// two closures made by one factory are different functions: a call from one into the other resolves the callee's captures
 	add(wProg(wset("mk", wlam([]string{"k"}, wdo(wlam([]string{"g", "d"}, wdo(wif(wb("==", wv("d"), wi(0)), wdo(W("return", "", wv("k")))), wcall(wv("g"), wv("g"), wi(0))))))),
 		wset("p1", wcall(wv("mk"), a)), wset("p2", wcall(wv("mk"), b)), wprint(wcall(wv("p1"), wv("p2"), wi(1)), wcall(wv("p2"), wv("p1"), wi(1)), wcall(wv("p1"), wv("p1"), wi(1)))))
